@@ -377,14 +377,16 @@ pub async fn require_auth(
     if req.method() != Method::POST {
         return next.run(req).await;
     }
-    // Invalid UTF-8 in a percent-encoded path segment: fall through and let
-    // the handler's `Path` extractor answer the same 400 it does today —
-    // still before the body is read, and still behind the in-handler
-    // authorization.
-    let Ok(params) = params else {
-        return next.run(req).await;
+    // Invalid UTF-8 in a percent-encoded path segment names no database a
+    // key could be bound to. It is authorized like any other unknown
+    // database, so a caller who may not address it gets the uniform
+    // rejection; only a caller who passes reaches the handler's `Path`
+    // extractor and its 400 — still before the body is read.
+    let scope = match &params {
+        Ok(params) => scope_from_params(params),
+        Err(_) => Scope::Database(""),
     };
-    if let Err(err) = state.authorize(scope_from_params(&params), bearer_token(req.headers())) {
+    if let Err(err) = state.authorize(scope, bearer_token(req.headers())) {
         return err.respond(Encoding::negotiate(req.headers()));
     }
     next.run(req).await
